@@ -11,3 +11,91 @@ def regen_all():
     return changed
 
 EXTRACTORS = {}
+
+
+def _read(rel):
+    return open(os.path.join(core.REPO, rel)).read()
+
+
+def lean_char(c):
+    if c == "'":
+        return "'\\''"
+    if c == "\\":
+        return "'\\\\'"
+    if " " <= c <= "~":
+        return f"'{c}'"
+    return "(Char.ofNat %d)" % ord(c)
+
+
+def lean_str(s):
+    o = []
+    for c in s:
+        if c == '"':
+            o.append('\\"')
+        elif c == "\\":
+            o.append("\\\\")
+        elif c == "\n":
+            o.append("\\n")
+        elif c == "\t":
+            o.append("\\t")
+        elif c == "\r":
+            o.append("\\r")
+        elif " " <= c <= "~":
+            o.append(c)
+        else:
+            o.append("\\u{%x}" % ord(c))
+    return '"' + "".join(o) + '"'
+
+
+def _rust_char_array(src, name):
+    m = re.search(r"const\s+" + name + r"\s*:\s*\[char;\s*(\d+)\]\s*=\s*\[(.*?)\];", src, re.S)
+    if not m:
+        raise core.BrokenTie(f"extract:{name}", "pattern not found")
+    items = re.findall(r"'(\\.|[^'\\])'", m.group(2))
+    if len(items) != int(m.group(1)):
+        raise core.BrokenTie(f"extract:{name}", "length mismatch")
+    return [bytes(x, "utf-8").decode("unicode_escape") if x.startswith("\\") else x for x in items]
+
+
+def _rust_str_array(src, name):
+    m = re.search(r"const\s+" + name + r"\s*:\s*\[&(?:'static\s+)?str;\s*(\d+)\]\s*=\s*\[(.*?)\];", src, re.S)
+    if not m:
+        raise core.BrokenTie(f"extract:{name}", "pattern not found")
+    items = re.findall(r'"((?:\\.|[^"\\])*)"', m.group(2))
+    if len(items) != int(m.group(1)):
+        raise core.BrokenTie(f"extract:{name}", "length mismatch")
+    return items
+
+
+def ex_varname():
+    src = _read("glass-easel-template-compiler/src/proc_gen/mod.rs")
+    chars = _rust_char_array(src, "VAR_NAME_CHARS")
+    start = _rust_char_array(src, "VAR_NAME_START_CHARS")
+    m = re.search(r"const\s+VAR_NAME_INDEX_PRESERVE\s*:\s*usize\s*=\s*(\d+)\s*;", src)
+    if not m:
+        raise core.BrokenTie("extract:VAR_NAME_INDEX_PRESERVE", "pattern not found")
+    try:
+        reserved = _rust_str_array(src, "VAR_NAME_RESERVED")
+    except core.BrokenTie:
+        reserved = []
+    # the shape of get_var_name itself (start table for the first digit, full table afterwards)
+    body = re.search(r"fn get_var_name\(mut var_id: usize\) -> String \{(.*?)\n\}", src, re.S)
+    if not body:
+        raise core.BrokenTie("extract:get_var_name", "pattern not found")
+    norm = re.sub(r"\s+", " ", body.group(1)).strip()
+    expect = ("let mut var_name = String::new(); var_name.push(VAR_NAME_START_CHARS[var_id % VAR_NAME_START_CHARS.len()]); "
+              "var_id /= VAR_NAME_START_CHARS.len(); while var_id > 0 { var_name.push(VAR_NAME_CHARS[var_id % VAR_NAME_CHARS.len()]); "
+              "var_id /= VAR_NAME_CHARS.len(); } var_name")
+    shape_ok = norm == expect
+    return ("/-! GENERATED from /repo/glass-easel-template-compiler/src/proc_gen/mod.rs by checklib/extractors.py — do not edit. -/\n"
+            "namespace GE.Extracted\n"
+            f"def varNameChars : List Char := [{', '.join(lean_char(c) for c in chars)}]\n"
+            f"def varNameStartChars : List Char := [{', '.join(lean_char(c) for c in start)}]\n"
+            f"def varNameIndexPreserve : Nat := {m.group(1)}\n"
+            f"def varNameReserved : List (List Char) := [{', '.join('[' + ', '.join(lean_char(c) for c in s) + ']' for s in reserved)}]\n"
+            f"/-- whether the body of `get_var_name` still has the loop shape the model mirrors -/\n"
+            f"def getVarNameShapeOk : Bool := {'true' if shape_ok else 'false'}\n"
+            "end GE.Extracted\n")
+
+
+EXTRACTORS["VarName"] = ex_varname
